@@ -134,6 +134,18 @@ fn union_in_sliced_list() {
     }
 }
 
+/// ArrayData equality of dictionary arrays whose keys are all null but whose dictionaries differ
+fn null_key_dictionary_equality() {
+    use arrow_buffer::OffsetBuffer;
+    let d = |vals: Vec<Option<&[u8]>>| Arc::new(DictionaryArray::<Int8Type>::new(Int8Array::from(vec![None, None, None, None]), Arc::new(BinaryArray::from(vals)))) as ArrayRef;
+    let a = d(vec![None]);
+    let b = d(vec![]);
+    println!("null-key dictionaries: tokens {:?} vs {:?}; ArrayData equal: {}", vcore::tok::rows(a.as_ref()), vcore::tok::rows(b.as_ref()), a.to_data() == b.to_data());
+    let item = Arc::new(Field::new("item", a.data_type().clone(), true));
+    let l = |c: ArrayRef| ListArray::new(item.clone(), OffsetBuffer::new(vec![0i32, 2, 4].into()), c, None);
+    println!("lists of them: ArrayData equal: {}", l(a).to_data() == l(b).to_data());
+}
+
 pub fn run() {
     // RunEndEncoded under metadata V4
     let ree = RunArray::<Int16Type>::try_new(&Int16Array::from(vec![2i16, 3]), &Int64Array::from(vec![Some(7), None])).unwrap();
@@ -151,6 +163,7 @@ pub fn run() {
     let empty = RunArray::<Int32Type>::try_new(&Int32Array::from(Vec::<i32>::new()), &StringArray::from(Vec::<&str>::new())).unwrap();
     roundtrip("ree-empty", schema.clone(), RecordBatch::try_new(schema.clone(), vec![Arc::new(empty)]).unwrap(), IpcWriteOptions::default());
     union_in_sliced_list();
+    null_key_dictionary_equality();
     tracker_ahead();
     dense_union_decoder();
     flight_union_flags();
